@@ -1250,6 +1250,14 @@ func vfcGen(r *vfutil.Rand, name string) *vfcScn {
 		b := r.Intn(nb)
 		scn.MidPut[fmt.Sprintf("%d.%d", b, r.Intn(len(scn.Batches[b])))] = true
 	}
+	if !realTxn && multiHeavy && r.Chance(1, 2) {
+		// a refresh between two Puts of a batch that is dense in multi-key commands: a multi-key command must follow, and
+		// must record, the route its slot took earlier in the batch (seeded change C19-r2-m2)
+		b := r.Intn(nb)
+		if len(scn.Batches[b]) >= 2 {
+			scn.MidPut[fmt.Sprintf("%d.%d", b, 1+r.Intn(len(scn.Batches[b])-1))] = true
+		}
+	}
 	if !realTxn && scn.Window <= 1 && !scn.Empty && r.Chance(1, 4) {
 		// (not with a node the client does not know: a MOVED to it makes the client refresh SYNCHRONOUSLY inside the
 		// batch, and whether the released asynchronous map or that one is installed last cannot be read off the trace)
@@ -1259,6 +1267,66 @@ func vfcGen(r *vfutil.Rand, name string) *vfcScn {
 		scn.During = append(scn.During, vfdoubles.Sched{At: r.Intn(total + 1), Ev: vfdoubles.MigEv{Kind: "p"}})
 	}
 	_ = total
+	return scn
+}
+
+// vfcGenMidPutMulti (session 5, seeded change C19-r2-m2): the drawn form of corpus/C19/d21m-midput-multikey.txt - a slot has moved
+// (the client's map is stale), and the refresh lands between two Puts of one batch of which one is a MULTI-KEY command of that slot
+// (MSET of 2-3 keys / SMOVE) and the other a command on one of its keys, in either order; further commands around them.
+func vfcGenMidPutMulti(r *vfutil.Rand, name string) *vfcScn {
+	scn := &vfcScn{Name: name, N: 3, Between: map[int][]vfcAct{}, MidPut: map[string]bool{}}
+	nk := r.Range(2, 3)
+	for j := 0; j < nk; j++ {
+		scn.Keys = append(scn.Keys, fmt.Sprintf("k%d{m%s}", j, name))
+	}
+	scn.Keys = append(scn.Keys, fmt.Sprintf("k0{n%s}", name)) // a key of another slot
+	switch r.Intn(4) {
+	case 0:
+		scn.Mode, scn.Window = "pipe", 1
+	case 1:
+		scn.Mode = "stxn"
+	default:
+		scn.Mode = "sync"
+	}
+	slot := vfdoubles.ClusterSlot(scn.Keys[0])
+	own := slot * 3 / 16384
+	id := 1
+	single := func(k int) vfcCmd {
+		c := vfcCmd{id, vfutil.Pick(r, []string{"set", "sadd", "append"}), []int{k}}
+		id++
+		return c
+	}
+	multi := func() vfcCmd {
+		var c vfcCmd
+		if r.Bool() {
+			ks := []int{0, 1}
+			if nk == 3 && r.Bool() {
+				ks = append(ks, 2)
+			}
+			c = vfcCmd{id, "mset", ks}
+		} else {
+			c = vfcCmd{id, "smove", []int{0, 1}}
+		}
+		id++
+		return c
+	}
+	scn.Batches = append(scn.Batches, []vfcCmd{single(0)})
+	var b []vfcCmd
+	if scn.Mode != "stxn" && r.Bool() {
+		b = append(b, single(nk)) // another slot first
+	}
+	at := len(b) + 1
+	if r.Bool() {
+		b = append(b, single(r.Intn(2)), multi())
+	} else {
+		b = append(b, multi(), single(r.Intn(2)))
+	}
+	if r.Bool() {
+		b = append(b, single(0))
+	}
+	scn.Batches = append(scn.Batches, b)
+	scn.Between[0] = []vfcAct{{Ev: vfdoubles.MigEv{Kind: "v", Slot: slot, Dst: (own + 1 + r.Intn(2)) % 3}}}
+	scn.MidPut[fmt.Sprintf("1.%d", at)] = true
 	return scn
 }
 
@@ -1587,6 +1655,10 @@ func TestVerifC19(t *testing.T) {
 	n := vfutil.Scale(600, 12000)
 	for i := 0; i < n; i++ {
 		scn := vfcGen(r.Fork(), fmt.Sprintf("g%d", i))
+		if i%20 == 19 {
+			scn = vfcGenMidPutMulti(r.Fork(), fmt.Sprintf("m%d", i))
+			s.Count("src_gen_midput_multikey")
+		}
 		idx += vfcOne(s, idx, scn)
 		s.Count("src_gen")
 	}
